@@ -99,7 +99,11 @@ func runVal(b *recB, m *mon, seg segSpec) {
 		b.Distinct("applied", era(v.net.N, ev.Next.Index.Height), len(ev.Block.Transactions) > 0, ev.Block.V2 != nil, fmt.Sprint(ev.Kinds))
 	}
 	died := false
+	hostileUCDone := false
 	for done := 0; done < lv.blocks && !died; {
+		if !hostileUCDone && c.Height() > 3 {
+			v.guard("hostile-unlock-conditions", nil, func() { hostileUCDone = v.hostileUnlockConditions() })
+		}
 		died = v.guard("apply-accepted-block", nil, func() {
 			done += c.Grow(1+rng.IntN(8), chaingen.Plan{MaxTxns: lv.maxTxns})
 			if c.Height() > 3 && rng.IntN(6) == 0 {
@@ -121,6 +125,87 @@ func runVal(b *recB, m *mon, seg segSpec) {
 	}
 	b.MaxOf("max_chain_height", int64(c.Height()))
 	b.Sample(map[string]any{"segment": seg.Name, "network": v.net.Name, "height": c.Height()})
+}
+
+// hostileUnlockConditions: an output is first paid to the hash of unlock conditions whose ed25519 keys have every wrong
+// length (empty, 16, 31, 33, 40 bytes) beside one good key; then it is spent with a signature naming each key index
+// in turn - by a v1 transaction and, where v2 is allowed, through the legacy unlock-conditions policy. Only such a
+// two-step history reaches the code that handles the key bytes: the unlock hash must match a funded output first.
+func (v *valmon) hostileUnlockConditions() (done bool) {
+	c := v.c
+	cs := c.Tip()
+	h := cs.Index.Height + 1
+	n := c.Net.N
+	if h+3 >= n.HardforkV2.RequireHeight {
+		return true
+	}
+	var src *types.SiacoinElement
+	var lock *chaingen.Lock
+	for _, id := range c.S.OrderedSC() {
+		el := c.S.SCEs[id]
+		l := c.W.Locks[el.SiacoinOutput.Address]
+		if l != nil && l.UC != nil && l.Kind != "uc-unknown-alg" && l.SpendableV1(h) && el.MaturityHeight <= h && el.SiacoinOutput.Value.Cmp(types.Siacoins(2)) > 0 {
+			ec := el.Copy()
+			src, lock = &ec, l
+			break
+		}
+	}
+	if src == nil {
+		return false
+	}
+	good := c.W.Keys[2]
+	pk := good.PublicKey()
+	ed := func(k []byte) types.UnlockKey { return types.UnlockKey{Algorithm: types.SpecifierEd25519, Key: k} }
+	uc := types.UnlockConditions{SignaturesRequired: 1, PublicKeys: []types.UnlockKey{ed(nil), ed(pk[:16]), ed(pk[:31]), ed(append(append([]byte(nil), pk[:]...), 0)), ed(append(append([]byte(nil), pk[:]...), 1, 2, 3, 4, 5, 6, 7, 8)), pk.UnlockKey()}}
+	pay := c.NewV1Spend(cs, src.ID, src.SiacoinOutput.Value, lock, uc.UnlockHash())
+	blk, bs, err := c.BlockWith([]types.Transaction{pay}, nil)
+	if err != nil || c.Offer(blk, bs, nil) != nil {
+		return false
+	}
+	cs = c.Tip()
+	id := pay.SiacoinOutputID(0)
+	for idx := range uc.PublicKeys {
+		txn := types.Transaction{
+			SiacoinInputs:  []types.SiacoinInput{{ParentID: id, UnlockConditions: uc}},
+			SiacoinOutputs: []types.SiacoinOutput{{Value: src.SiacoinOutput.Value, Address: types.VoidAddress}},
+			Signatures:     []types.TransactionSignature{{ParentID: types.Hash256(id), PublicKeyIndex: uint64(idx), CoveredFields: types.CoveredFields{WholeTransaction: true}}},
+		}
+		sig := good.SignHash(cs.WholeSigHash(txn, types.Hash256(id), uint64(idx), 0, nil))
+		txn.Signatures[0].Signature = sig[:]
+		for _, sl := range []int{64, 0, 10, 65} { // and signatures of every wrong length
+			t2 := chaingen.CloneV1(txn)
+			if sl < 64 {
+				t2.Signatures[0].Signature = t2.Signatures[0].Signature[:sl]
+			} else if sl > 64 {
+				t2.Signatures[0].Signature = append(t2.Signatures[0].Signature, 9)
+			}
+			b2, _, err := c.EmptyBlock()
+			if err != nil {
+				return true
+			}
+			b2.Transactions = []types.Transaction{t2}
+			v.b.Eval(1)
+			v.b.Count("hostile_unlock_condition_spends", 1)
+			v.guard(fmt.Sprintf("v1-signature-naming-an-ed25519-key-of-%d-bytes", len(uc.PublicKeys[idx].Key)), nil, func() { c.TryVariant(&b2) })
+		}
+		if h+1 >= n.HardforkV2.AllowHeight {
+			if el, ok := c.S.SCEs[id]; ok {
+				pol := types.SpendPolicy{Type: types.PolicyTypeUnlockConditions(uc)}
+				t2 := types.V2Transaction{SiacoinInputs: []types.V2SiacoinInput{{Parent: el.Copy(), SatisfiedPolicy: types.SatisfiedPolicy{Policy: pol}}}, SiacoinOutputs: []types.SiacoinOutput{{Value: el.SiacoinOutput.Value, Address: types.VoidAddress}}}
+				t2.SiacoinInputs[0].SatisfiedPolicy.Signatures = []types.Signature{good.SignHash(cs.InputSigHash(t2))}
+				b2, _, err := c.EmptyBlock()
+				if err == nil {
+					if b2.V2 == nil {
+						b2.V2 = &types.V2BlockData{}
+					}
+					b2.V2.Transactions = []types.V2Transaction{t2}
+					v.b.Count("hostile_unlock_condition_spends", 1)
+					v.guard("v2-unlock-conditions-policy-with-malformed-ed25519-keys", nil, func() { c.TryVariant(&b2) })
+				}
+			}
+		}
+	}
+	return true
 }
 
 // guard is the crash monitor for the validation workload: panic => violation
@@ -816,6 +901,40 @@ func (v *valmon) directedMuts(cs consensus.State, orig *types.Block) []mut {
 			muts = append(muts, mut{op: "v1-output-plus-fee-overflow", field: "v1.appended-transaction-without-inputs", val: tv.s, directed: true, noResign: true, f: func(blk *types.Block) bool {
 				blk.Transactions = append(blk.Transactions, chaingen.CloneV1(tv.txn))
 				return true
+			}})
+		}
+	}
+	if v1ok {
+		// a funded transaction turned into a contract whose proof-output sets each come within the tax of 2^128: no
+		// single group of values overflows, the valid set plus the tax does
+		for _, tv := range []struct {
+			s    string
+			each types.Currency
+		}{{"valid=missed=2^128-1-5000", curMax.Sub(types.NewCurrency64(5000))}, {"valid=missed=2^128-1", curMax}, {"valid=missed=2^127", cur2p127}} {
+			tv := tv
+			muts = append(muts, mut{op: "v1-contract-proof-outputs-plus-tax-overflow", field: "v1.transaction-turned-into-a-contract", val: tv.s, directed: true, noResign: true, f: func(blk *types.Block) bool {
+				for i := range blk.Transactions {
+					t := &blk.Transactions[i]
+					if len(t.SiacoinInputs) == 0 || len(t.FileContracts)+len(t.FileContractRevisions)+len(t.StorageProofs)+len(t.SiafundInputs) > 0 {
+						continue
+					}
+					var sum types.Currency
+					ok := true
+					for _, in := range t.SiacoinInputs {
+						el, have := v.c.S.SCEs[in.ParentID]
+						ok = ok && have
+						sum = sum.Add(el.SiacoinOutput.Value)
+					}
+					if !ok || sum.IsZero() {
+						continue
+					}
+					t.SiacoinOutputs, t.MinerFees, t.ArbitraryData = nil, nil, nil
+					t.FileContracts = []types.FileContract{{Payout: sum, WindowStart: h + 5, WindowEnd: h + 10,
+						ValidProofOutputs: []types.SiacoinOutput{{Value: tv.each, Address: dest}}, MissedProofOutputs: []types.SiacoinOutput{{Value: tv.each, Address: dest}}}}
+					blk.Transactions = blk.Transactions[:i+1]
+					return true
+				}
+				return false
 			}})
 		}
 	}
